@@ -125,4 +125,9 @@ theorem wal_consts_expected :
 theorem fp_wal_expected :
     [fp_walReplayPhysicRecord, fp_walWriteBinary] = ["6ca6bac463cca4b0", "f4eaaae58d1afbee"] := by rfl
 
+/-! lib/encoding/string.go and the string packing of encoding.go -/
+theorem fp_string_expected :
+    [fp_strEncInit, fp_strEncoding, fp_strEncodingWithSnappy, fp_strEncodingWithZSTD, fp_strEncodingWithLz4, fp_strUncompressedData, fp_strDecodingInit, fp_strDecoding, fp_strDecodingWithSnappy, fp_strDecodingWithZSTD, fp_strDecodingWithLz4, fp_packStringV2, fp_unpackStringV2, fp_unpackString, fp_encodeStringBlock, fp_decodeStringBlock] =
+    ["d57a4593cf3dc030", "f104c8cce27aff9d", "86619466202a9aa2", "57a722c098c79a26", "5556c03bb357778f", "cb263115df2d831c", "aad8e46bd190c324", "7c3cc3a1b01b03da", "301d774123234772", "b9b332f65a20cde9", "1c4bebae88f25d0b", "abf68782d14a08a2", "00d19af91ed7d9c0", "b830b6a0ce13864f", "646deda366d57edd", "0b825e9d309fefbe"] := by rfl
+
 end OG.C07.Facts
